@@ -414,12 +414,55 @@ fn strategy(tier: Tier) -> BoxedStrategy<Case> {
         .boxed()
 }
 
+/// One long run (40..220 classes sharing a quotient, so that whole 64-slot blocks of the slot metadata are
+/// continuations) in a table of 128..1024 slots under the Ident hasher, with a predecessor bucket and a few
+/// following buckets that are filled while the run is still short; optionally the run starts just before the
+/// ring end. The (quotient, remainder) placement goes through the same KeySpec::QR as everywhere.
+pub fn long_run_case(q: usize, rcode: usize, base: u16, len: u16, followers: u8, back: u8, seed: u64) -> Case {
+    let r = if rcode >= 100 { 64 - q } else { rcode };
+    let shift = 16 - q as u32; // KeySpec::QR maps quot -> quot >> (16 - q)
+    let nq = 1u32 << q;
+    let b = if back > 0 { nq - back as u32 } else { base as u32 >> shift };
+    let quot_raw = |i: u32| ((i % nq) << shift) as u16;
+    let len = (len as u32).min(if r >= 8 { 220 } else { 120 });
+    let mut universe = vec![];
+    for d in 1..=(1 + followers as u32) {
+        for rem in 0..2u16 {
+            universe.push(KeySpec::QR { quot: quot_raw(b + d), rem, trash: mix(seed, (d * 2 + rem as u32) as u64) });
+        }
+    }
+    universe.push(KeySpec::QR { quot: quot_raw(b + nq - 1), rem: 1, trash: mix(seed, 999) });
+    let nv = universe.len();
+    for i in 0..len {
+        universe.push(KeySpec::QR { quot: quot_raw(b), rem: i as u16, trash: mix(seed, 1000 + i as u64) });
+    }
+    let n = universe.len();
+    let pick = |j: usize| (((j << 16) + n - 1) / n) as u16; // idx(pick(j), n) == j
+    // order: three run elements, the victims, the rest of the run in a seeded order, finally some re-inserts
+    let mut ops: Vec<u16> = vec![pick(nv), pick(nv + 1), pick(nv + 2)];
+    ops.extend((0..nv).map(pick));
+    let mut rest: Vec<usize> = (nv + 3..n).collect();
+    let mut g = stat::SplitMix64(seed);
+    for i in (1..rest.len()).rev() {
+        rest.swap(i, g.below(i as u64 + 1) as usize);
+    }
+    ops.extend(rest.iter().map(|&j| pick(j)));
+    ops.extend([pick(0), pick(nv), pick(n - 1)]);
+    Case { q, r, hk: HKind::Ident, universe, ops }
+}
+
+fn long_run_strategy() -> BoxedStrategy<Case> {
+    (7usize..=10, prop_oneof![Just(7usize), Just(8), Just(16), Just(100usize)], any::<u16>(), 40u16..220, 0u8..4, prop_oneof![3 => Just(0u8), 1 => 1u8..3], any::<u64>())
+        .prop_map(|(q, rcode, base, len, followers, back, seed)| long_run_case(q, rcode, base, len, followers, back, seed))
+        .boxed()
+}
+
 pub fn checks() -> Vec<Box<dyn DynCheck>> {
     vec![Box::new(Random), Box::new(Seq), Box::new(super::extendpaths::DefaultCtors), Box::new(super::giant::Giant)]
 }
 
 pub fn run(ctx: &Ctx) {
-    ctx.set_rule("(a) exhaustive: with the Ident hasher every insertion sequence over all 2^(q+r) fingerprint values up to a length bound, and every subset of classes in several orders followed by one more insert of every class; (b) generated: q in 1..=6 (8 thorough), r in {1..8,16,32,56, 62-q, 63-q, 64-q}, Ident/Sip/Mod/Mix hashers, universes of up to 1.5x capacity keys placed by (quotient, remainder) incl. ring-end quotients, insert histories up to 2x capacity. Oracle after every insert: result, len, is_empty and query of EVERY universe key (presence and absence) equal the behaviourally computed class-set model. Non-trivial: model holds >=3 classes with some run shifted from its canonical slot, or the table is full, or a cluster wraps past the last slot (exhaustive part: computed from the class set under Ident). Distinct = (q, r, ordered class sequence). default_constructors: QuotientFilter::with_params (no hasher argument) for q in 1..=8 and every r in 1..=64 - q against with_params_and_hash given BuildHasherDefault<DefaultHasher>: bits_quotient()/bits_remainder() echo the arguments and insert/len/query agree on up to 300 keys and 300 probes. giant_tables: (q, r) in {(30,5), (31,2), (32,1), (33,1)} under the Ident hasher with classes at quotients 0, 5..7, 2^q/2 (-1), 2^31 (+-1), 2^32-1, 2^q-2, 2^q-1 (a run wrapping the ring end) and up to three remainders each: Ok(true)/Ok(false), len, no false negative, no never-inserted class reported.");
+    ctx.set_rule("(a) exhaustive: with the Ident hasher every insertion sequence over all 2^(q+r) fingerprint values up to a length bound, and every subset of classes in several orders followed by one more insert of every class; (b) generated: q in 1..=6 (8 thorough), r in {1..8,16,32,56, 62-q, 63-q, 64-q}, Ident/Sip/Mod/Mix hashers, universes of up to 1.5x capacity keys placed by (quotient, remainder) incl. ring-end quotients, insert histories up to 2x capacity; 4 % of the cases are one run of 40..220 classes sharing a quotient in a table of 2^7..2^10 slots (r in {7, 8, 16, 64-q}), with neighbouring buckets filled while the run is short, optionally starting just before the ring end. Oracle after every insert: result, len, is_empty and query of EVERY universe key (presence and absence) equal the behaviourally computed class-set model. Non-trivial: model holds >=3 classes with some run shifted from its canonical slot, or the table is full, or a cluster wraps past the last slot (exhaustive part: computed from the class set under Ident). Distinct = (q, r, ordered class sequence). default_constructors: QuotientFilter::with_params (no hasher argument) for q in 1..=8 and every r in 1..=64 - q against with_params_and_hash given BuildHasherDefault<DefaultHasher>: bits_quotient()/bits_remainder() echo the arguments and insert/len/query agree on up to 300 keys and 300 probes. giant_tables: (q, r) in {(30,5), (31,2), (32,1), (33,1)} under the Ident hasher with classes at quotients 0, 5..7, 2^q/2 (-1), 2^31 (+-1), 2^32-1, 2^q-2, 2^q-1 (a run wrapping the ring end) and up to three remainders each: Ok(true)/Ok(false), len, no false negative, no never-inserted class reported.");
     ctx.assume("fingerprint classes computed behaviourally: x ~ y iff a fresh filter holding only x reports y (checked to be an equivalence)");
     ctx.run_regressions(&[&Random, &Seq]);
     let t = ctx.tier;
@@ -445,7 +488,7 @@ pub fn run(ctx: &Ctx) {
         exhaustive_subsets(ctx, q, r, o);
     }
     if !ctx.failed() {
-        ctx.run_random(&Random, t.pick(300_000, 3_000_000), move || strategy(t));
+        ctx.run_random(&Random, t.pick(300_000, 3_000_000), move || prop_oneof![24 => strategy(t), 1 => long_run_strategy()].boxed());
         ctx.require_class("random_history", "table_full", 0.1);
         ctx.require_class("random_history", "wraps_ring_end", 0.03);
         ctx.require_class("random_history", "shifted_run", 0.2);
